@@ -115,6 +115,62 @@ def signature(kind, d, rec):
     return sig
 
 
+def real_model_binding(chk):
+    """code -> spec on the repository's own models: J/E lines of the real report against the
+       coefficient vectors TopologyOn.tla derives for the projected object list"""
+    import glob, os, io, contextlib
+    from .c12 import project_input
+    from mininec.mininec import main, Mininec
+    models = []
+    for f in sorted(glob.glob(os.path.join(C.REPO, 'test', '*.pym'))):
+        args = ' '.join(l for l in open(f) if not l.startswith('#')).split()
+        out, err = io.StringIO(), io.StringIO()
+        try:
+            with contextlib.redirect_stdout(out), contextlib.redirect_stderr(err):
+                m = main(args, f_err=err, return_mininec=True)
+        except SystemExit:
+            continue
+        if isinstance(m, Mininec):
+            inp = project_input(m)
+            if inp is not None:
+                models.append((os.path.basename(f), m, inp))
+    n = 0
+    for ground in (True, False):
+        sel = [x for x in models if (x[1].media is not None) == ground]
+        if not sel:
+            continue
+        recs = T.spec_records(chk, [x[2] for x in sel], ground, name='c09-real-%s' % ground)
+        for (name, m, inp), rec in zip(sel, recs):
+            if rec.get('reject'):
+                continue
+            try:
+                lines, rows = T.decode_lines(m)
+            except R.ReportError as e:
+                chk.violation(dict(kind='report-grammar', model=name), dict(model=name, msg=str(e)))
+                continue
+            exp = T.spec_lines(rec)
+            n += 1
+            chk.case('real/' + name, any(e2['kind'] == 'J' for l2 in rec['lines'] for e2 in l2),
+                     sample=dict(model=name, objects=len(inp)))
+            chk.traces += 1
+            for o in range(len(inp)):
+                for e in (0, 1):
+                    a, b = lines[o][e], exp[o][e]
+                    a = tuple(a) if isinstance(a, (list, tuple)) else a
+                    b = tuple(b) if isinstance(b, (list, tuple)) else b
+                    if a != b:
+                        nl = len(b[1]) if not isinstance(b, str) else 0
+                        last_only = False
+                        if nl >= 2 and not isinstance(a, str):
+                            ql = max(b[1])
+                            last_only = (a[1] == {ql: b[1][ql]})
+                        chk.violation(dict(kind='line-coef', end=e + 1, nlinks_ge2=nl >= 2, only_last_link_shown=last_only),
+                                      dict(model=name, obj=o + 1, end=e + 1, code=str(a), spec=str(b)))
+            if rows != rec['rows']:
+                chk.violation(dict(kind='numbered-rows', model=name), dict(model=name))
+    chk.cov['real_models_validated'] = n
+
+
 def run(tier):
     chk = C.Check(PID, tier, 'model_checking')
     chk.assumptions = [
@@ -134,6 +190,7 @@ def run(tier):
         for kind, d in o['mism']:
             chk.violation(signature(kind, d, r) if isinstance(d, dict) else dict(kind=kind),
                           dict(input=inp, ground=g, what=kind, info=d, spec=r))
+    real_model_binding(chk)
     return chk.finish(
         rule='one case per accepted final state printed by TLC; non-trivial = at least one junction (J) line; '
              'distinct by hash of (abstract input, ground)')
